@@ -113,6 +113,16 @@ package termincommittee
 //@   | && (vcm.block == nil ==> !HasProof(vcm.content))
 //@   | && (vcm.block != nil ==> Commits(tic.blockUtils, vcm.content.SignedHeader().BlockHeight(), vcm.block, vcm.content.SignedHeader().PreparedProof().PreprepareBlockRef().BlockHash()))
 
+// what this node sends as its vote: typed, signed by it, for its height and the view it just entered, canonical, and either
+// without proof and block or with both
+//@ pred EmittedVote(tic *TermInCommittee, vcm *interfaces.ViewChangeMessage) = vcm.content != nil
+//@   | && vcm.content.SignedHeader().MessageType() == protocol.LEAN_HELIX_VIEW_CHANGE
+//@   | && VerifiedMsg(tic.keyManager, vcm.content.SignedHeader().BlockHeight(), vcm.content.SignedHeader().Raw(), vcm.content.Sender().MemberId(), vcm.content.Sender().Signature())
+//@   | && vcm.content.Sender().MemberId() == tic.myMemberId && IsMember(tic.committeeMembers, tic.myMemberId)
+//@   | && vcm.content.SignedHeader().BlockHeight() == tic.State.height && vcm.content.SignedHeader().View() == tic.State.view
+//@   | && CanonVC(vcm)
+//@   | && (!HasProof(vcm.content) ==> vcm.block == nil)
+
 // two correct members of one committee at one height: same member list, and their key managers give the same verdicts
 // (A-KM-AGREE: verification is a function of the public data, the same at every correct node)
 //@ pred SameCommittee(a *TermInCommittee, b *TermInCommittee) = len(a.committeeMembers) == len(b.committeeMembers)
@@ -126,6 +136,19 @@ package termincommittee
 //@   requires [emitted-by-a] EmittedPrepare(a, pm)
 //@   requires [unless-the-peer-view-is-already-higher] pm.content.SignedHeader().View() >= b.State.view
 //@   ensures [L11.an-emitted-prepare-is-acceptable-to-the-peer] AcceptsPrepare(b, pm)
+// a vote emitted by a and delivered to b, the leader of its view, while b has not passed that view. The prepared proof
+// inside the vote (when there is one) is covered by hypothesis: that a proof assembled by a from its log is acceptable
+// is not decided here (see DESIGN 9.10).
+//@ func lemmaC11Vote
+//@   props C11
+//@   requires TicOK(a) && TicOK(b) && vcm != nil && vcm.content != nil
+//@   requires [matching-state.same-committee-and-keys] SameCommittee(a, b) && KeysAgree(a, b) && a.State.height == b.State.height
+//@   requires [emitted-by-a] EmittedVote(a, vcm)
+//@   requires [addressed-to-b-as-leader-of-that-view] b.myMemberId == LeaderOf(b.committeeMembers, vcm.content.SignedHeader().View())
+//@   requires [unless-the-leader-already-passed-the-view] vcm.content.SignedHeader().View() >= b.State.view
+//@   requires [hypothesis.the-proof-a-assembled-is-acceptable] HasProof(vcm.content) ==> ProofAcceptable(b, vcm.content.SignedHeader().PreparedProof(), b.State.height, vcm.content.SignedHeader().View())
+//@     | && vcm.block != nil && Commits(b.blockUtils, vcm.content.SignedHeader().BlockHeight(), vcm.block, vcm.content.SignedHeader().PreparedProof().PreprepareBlockRef().BlockHash())
+//@   ensures [L11.an-emitted-vote-is-acceptable-to-its-leader] AcceptsVote(b, vcm)
 //@ func lemmaC11Commit
 //@   props C11
 //@   requires TicOK(a) && TicOK(b) && cm != nil && cm.content != nil
@@ -584,6 +607,7 @@ package termincommittee
 //@ func (*TermInCommittee).sendConsensusMessageToSpecificMember
 //@   trusted
 //@   requires [O10.6.only-votes-are-unicast] istype(message, *interfaces.ViewChangeMessage)
+//@   requires [C11:O11.1.an-emitted-vote-is-one-its-leader-accepts] EmittedVote(tic, dyn(message, *interfaces.ViewChangeMessage))
 //@   requires [O10.6.vote-for-the-view-just-entered] dyn(message, *interfaces.ViewChangeMessage).content.SignedHeader().View() == tic.State.view
 //@   requires [O10.6.vote-views-strictly-increase] dyn(message, *interfaces.ViewChangeMessage).content.SignedHeader().View() > lastVC
 //@   requires [O10.6.addressed-to-the-leader-of-that-view] targetMemberId == LeaderOf(tic.committeeMembers, dyn(message, *interfaces.ViewChangeMessage).content.SignedHeader().View())
@@ -591,7 +615,7 @@ package termincommittee
 //@   ensures lastVC == dyn(message, *interfaces.ViewChangeMessage).content.SignedHeader().View()
 
 //@ func (*TermInCommittee).moveToNextLeaderByElection
-//@   props C09 C10 C19 C07 C12
+//@   props C09 C10 C19 C07 C12 C11
 //@   safety iface
 //@   requires TicOK(tic)
 //@   inv GhostInv(tic)
